@@ -19,7 +19,7 @@ pub fn prop() -> Prop {
             "reference evaluation uses winterfell field operators with Horner's rule at explicitly computed domain points (definitions, no FFT); H::hash_elements / merge_many / merge are the subject of C15/C16",
             "partition size re-derived from the rustdoc: columns when one partition, else max(ceil(columns / partitions), hash_rate / extension_degree)",
         ],
-        subs: vec![Sub::gen("matrices", matrices, 96, 2_000, 100_000)],
+        subs: vec![Sub::gen("matrices", matrices, 96, 2_000, 25_000)],
         required: vec!["cols_1", "cols_9", "partial_last_segment", "partitions_gt_1", "ext_2", "ext_3", "segment_width_1", "segment_width_8", "offset_not_generator", "hasher:Rp64_256", "field:f62", "field:f128"],
         required_thorough: vec![],
     }
